@@ -198,7 +198,11 @@ func (n *DLQHandlerNode) dlqRecord(msg *Message, nackMetadata NackMetadata) (ope
 		},
 	}
 	r.Metadata.SetCreatedAt(time.Now())
-	r.Metadata.SetConduitDLQNackError(nackMetadata.Reason.Error())
+	nackErr := "unknown error (the component reported a failure without an error)"
+	if nackMetadata.Reason != nil {
+		nackErr = nackMetadata.Reason.Error()
+	}
+	r.Metadata.SetConduitDLQNackError(nackErr)
 	r.Metadata.SetConduitDLQNackNodeID(nackMetadata.NodeID)
 	return r, nil
 }
